@@ -194,7 +194,7 @@ def st_table(draw, name):
 @st.composite
 def st_basin(draw):
     kind = draw(st.sampled_from(["file", "mapped", "int-sc", "int-mixed",
-                                 "int-mixed"]))
+                                 "int-mixed", "int-nonsc"]))
     return {"kind": kind, "seed": draw(st.integers(0, 2**16)),
             "enc": draw(st.sampled_from(["fixed-zstd1", "fixed-zstd1", "vlen",
                                          "fixed-zstd5", "fixed-contig"])),
@@ -556,11 +556,15 @@ def write_basins(h5, spec, d, info):
             m = b["m"]
             grp = h5.require_group("basin_events")
             ifeats = {}
-            cand = "userdef3" if "userdef3" not in grp else None
-            if cand is None:
-                continue
-            ifeats["userdef3"] = r.normal(size=m)
-            if kind == "int-mixed" and "image_bg" not in names \
+            if kind == "int-nonsc" and ("image_bg" in names or "image_bg" in grp):
+                kind = "int-sc"
+            if kind != "int-nonsc":
+                # (int-nonsc: an internal basin with non-scalar features only, as
+                # written by segmentation pipelines; condense has nothing to keep)
+                if "userdef3" in grp:
+                    continue
+                ifeats["userdef3"] = r.normal(size=m)
+            if kind in ("int-mixed", "int-nonsc") and "image_bg" not in names \
                     and "image_bg" not in grp:
                 ifeats["image_bg"] = r.integers(
                     0, 255, size=(m, spec["hw"][0], spec["hw"][1])).astype(np.uint8)
@@ -872,6 +876,11 @@ def run_layout(spec, rec, d):
         rec.cls("basin:multi")
     if task == "condense" and "int-mixed" in info["basin_kinds"]:
         rec.cls("basin:internal-rewrite")
+        nt = True
+    if task == "condense" and "int-nonsc" in info["basin_kinds"]:
+        rec.cls("basin:internal-dropped")
+        if info["basin_kinds"][-1] != "int-nonsc" or nbas >= 2:
+            rec.cls("basin:internal-dropped+others")
         nt = True
     if task == "repack":
         if opts["strip_logs"]:
